@@ -178,9 +178,19 @@ static void *client_thread (void *arg) {
     return NULL;
 }
 
+/* ownership of the connection's descriptor: the request path must close it exactly once (a second close () hits whatever
+ * connection has been given that number in the meantime - harmless in a sequential run, fatal to another client under load) */
+static int g_job_fd = -1, g_job_closes = 0;
+int close (int fd) {
+    static int (*real) (int) = NULL;
+    if (!real) real = dlsym (RTLD_NEXT, "close");
+    if (fd >= 0 && fd == g_job_fd) __sync_fetch_and_add (&g_job_closes, 1);
+    return real (fd);
+}
+
 /* cred req <hex request bytes> [env k=v ...] [sendfail=1] [cut=N]  ->  rsp=<hex> leak=<0|1> */
 static void do_req (char **w, int n) {
-    int sv[2]; m_msg_t m; struct client c; pthread_t th; char *v; int leak; long stall_bad = -1, slow_bad = -1;
+    int sv[2]; m_msg_t m; struct client c; pthread_t th; char *v; int leak, closes; long stall_bad = -1, slow_bad = -1;
     memset (&c, 0, sizeof c);
     c.reqlen = hx_parse (w[2], &c.req);
     if (c.reqlen < 0) { puts ("bad-op"); return; }
@@ -198,7 +208,9 @@ static void do_req (char **w, int n) {
     {
         struct timespec t0, t1; long ms;
         clock_gettime (CLOCK_MONOTONIC, &t0);
+        g_job_closes = 0; g_job_fd = sv[0];
         _job_exec (m);                                 /* recv, process, send, destroy (closes sv[0]) */
+        g_job_fd = -1; closes = g_job_closes;
         clock_gettime (CLOCK_MONOTONIC, &t1);
         ms = (t1.tv_sec - t0.tv_sec) * 1000 + (t1.tv_nsec - t0.tv_nsec) / 1000000;
         /* a stalled client must be dropped after the I/O timeout: not at once, not (much) later */
@@ -214,7 +226,8 @@ static void do_req (char **w, int n) {
     printf ("rsp="); hx_print (c.rsp, c.rsplen);
     free (c.req); free (c.rsp);
     leak = __lsan_do_recoverable_leak_check ();
-    if (slow_bad >= 0) printf (" leak=%d request-not-refused-at-once-%ldms\n", leak ? 1 : 0, slow_bad);
+    if (closes != 1) printf (" leak=%d connection-descriptor-closed-%d-times\n", leak ? 1 : 0, closes);
+    else if (slow_bad >= 0) printf (" leak=%d request-not-refused-at-once-%ldms\n", leak ? 1 : 0, slow_bad);
     else if (stall_bad >= 0) printf (" leak=%d stalled-client-dropped-after-%ldms\n", leak ? 1 : 0, stall_bad);
     else printf (" leak=%d\n", leak ? 1 : 0);
 }
